@@ -357,6 +357,75 @@ fn http_proxy_e2e() -> (u64, Vec<V>, String) {
             Err(e) => viols.push(("source-address/http-proxy/no-reply".into(), format!("{:?}", e), json!({}))),
         }
     }
+    // a proxy reuses its upstream connections: one kept-alive connection carries the announces of different clients.
+    // Every sequence of 2 and 3 header values out of 4 (two IPv4, one IPv4-mapped, one IPv6), each in its own torrent.
+    let vals: [(&str, IpAddr); 4] = [("203.0.113.21", "203.0.113.21".parse().unwrap()), ("203.0.113.22", "203.0.113.22".parse().unwrap()), ("::ffff:203.0.113.23", "203.0.113.23".parse().unwrap()), ("2001:db8::24", "2001:db8::24".parse().unwrap())];
+    let mut seqs: Vec<Vec<usize>> = Vec::new();
+    for a in 0..4 {
+        for b in 0..4 {
+            seqs.push(vec![a, b]);
+            for c in 0..4 {
+                seqs.push(vec![a, b, c]);
+            }
+        }
+    }
+    for (si, seq) in seqs.iter().enumerate() {
+        n += 1;
+        let mut h = [0x66u8; 20];
+        h[0] = (si >> 8) as u8;
+        h[1] = si as u8;
+        let mut c = match HttpConn::connect(addr) {
+            Some(c) => c,
+            None => {
+                viols.push(("source-address/http-proxy/no-reply".into(), "connect failed".into(), json!({})));
+                break;
+            }
+        };
+        let mut exp4: BTreeSet<Vec<u8>> = BTreeSet::new();
+        let mut exp6: BTreeSet<Vec<u8>> = BTreeSet::new();
+        let mut answered = true;
+        for (i, &v) in seq.iter().enumerate() {
+            let port = 7200 + i as u16;
+            let mut pid = [7u8; 20];
+            pid[0] = i as u8;
+            c.send(&http_get(&http_announce_path(&h, &pid, port, 1, "started", None, 0), &format!("X-Real-Client: {}\r\n", vals[v].0)));
+            answered &= c.read_reply().is_ok();
+            match vals[v].1 {
+                IpAddr::V4(a) => {
+                    let mut e = a.octets().to_vec();
+                    e.extend_from_slice(&port.to_be_bytes());
+                    exp4.insert(e);
+                }
+                IpAddr::V6(a) => {
+                    let mut e = a.octets().to_vec();
+                    e.extend_from_slice(&port.to_be_bytes());
+                    exp6.insert(e);
+                }
+            }
+        }
+        if !answered {
+            viols.push(("source-address/http-proxy/no-reply".into(), format!("kept-alive connection, header values {:?}: a request was not answered", seq), json!({"sequence": seq})));
+            continue;
+        }
+        for (fam4, yh, exp) in [(true, "X-Real-Client: 203.0.113.200\r\n", &exp4), (false, "X-Real-Client: 2001:db8::200\r\n", &exp6)] {
+            let mut cy = match HttpConn::connect(addr) {
+                Some(c) => c,
+                None => continue,
+            };
+            cy.send(&http_get(&http_announce_path(&h, &[6; 20], 7999, 1, "stopped", None, 0), yh));
+            match cy.read_reply() {
+                Ok(r) => {
+                    let b = bencode::decode(&r.body[..r.body.len().saturating_sub(2)]).unwrap_or(bencode::B::Int(0));
+                    let raw: Vec<u8> = b.get(if fam4 { "peers" } else { "peers6" }).and_then(|x| x.as_bytes()).map(|x| x.to_vec()).unwrap_or_default();
+                    let got: BTreeSet<Vec<u8>> = raw.chunks(if fam4 { 6 } else { 18 }).map(|x| x.to_vec()).collect();
+                    if &got != exp {
+                        viols.push(("source-address/http-proxy/kept-alive-connection/wrong-peers".into(), format!("one kept-alive connection carried announces with header values {:?} (ports 7200..): {} peers handed out {:?}, expected {:?}", seq.iter().map(|v| vals[*v].0).collect::<Vec<_>>(), if fam4 { "IPv4" } else { "IPv6" }, got, exp), json!({"sequence": seq})));
+                    }
+                }
+                Err(e) => viols.push(("source-address/http-proxy/no-reply".into(), format!("{:?}", e), json!({}))),
+            }
+        }
+    }
     (n, viols, "http behind reverse proxy: served".into())
 }
 
@@ -418,7 +487,7 @@ fn ws_e2e(address: &str, only6: bool) -> (u64, Vec<V>, String) {
 
 pub fn main(args: &Args) -> ! {
     let mut run = Run::new(args, "exploration");
-    run.set("rule", "direct: CanonicalSocketAddr::new / get_ipv6_mapped and the ws IpVersion over IPv4, IPv6, mapped and 24 near-miss addresses x 4 ports; reverse-proxy header layouts (1-3 occurrences x 1-3 comma-separated values x 4 whitespace shapes x value kinds x position of unrelated headers x 3 spellings of the field name differing only in letter case, per occurrence) through the socket worker's parse_request; end to end: UDP (mio, io_uring) and HTTP over socket configurations {v4 only, v6 only, v6 dual-stack, both with v6-only}, WS over {v4, v6 only, v6 dual-stack}, sources 127.0.0.1/.2/.3, 192.0.2.2, ::1, fd00::2 (IPv4 hosts also through the dual-stack socket), every in-request address field value; X announces, every other source Y of the family reads the peer list, the other family scrapes. A case = one (configuration, X, field, Y) observation");
+    run.set("rule", "direct: CanonicalSocketAddr::new / get_ipv6_mapped and the ws IpVersion over IPv4, IPv6, mapped and 24 near-miss addresses x 4 ports; reverse-proxy header layouts (1-3 occurrences x 1-3 comma-separated values x 4 whitespace shapes x value kinds x position of unrelated headers x 3 spellings of the field name differing only in letter case, per occurrence) through the socket worker's parse_request; end to end: UDP (mio, io_uring) and HTTP over socket configurations {v4 only, v6 only, v6 dual-stack, both with v6-only}, WS over {v4, v6 only, v6 dual-stack}, sources 127.0.0.1/.2/.3, 192.0.2.2, ::1, fd00::2 (IPv4 hosts also through the dual-stack socket), every in-request address field value; behind a reverse proxy also every sequence of 2 and 3 header values (IPv4, IPv4, mapped, IPv6) announced over one kept-alive connection; X announces, every other source Y of the family reads the peer list, the other family scrapes. A case = one (configuration, X, field, Y) observation");
     run.assume("real non-loopback routing is not available");
     if args.replay.is_some() {
         eprintln!("replay: re-running the check");
